@@ -184,7 +184,10 @@ pub fn exec_op(ctx: &mut ArrCtx, verb: &str, m: &BTreeMap<String, String>) -> St
                     let isz = 16 * n + if icrc { 4 } else { 0 };
                     if len >= isz {
                         let base = if parts[0] == "end" { len - isz } else { 0 };
-                        for i in 0..n {
+                        // the checksum of the index itself
+                        if icrc { spots.extend(base + 16 * n..base + 16 * n + 4); }
+                        let inner_too = m["sums"] != "index";
+                        for i in 0..(if inner_too { n } else { 0 }) {
                             let rd = |p: usize| { let b: [u8; 8] = pristine_val[p..p + 8].try_into().unwrap(); if parts[1] == "big" { u64::from_be_bytes(b) } else { u64::from_le_bytes(b) } };
                             let (off, size) = (rd(base + 16 * i), rd(base + 16 * i + 8));
                             if off == u64::MAX && size == u64::MAX { continue; }
@@ -338,7 +341,7 @@ pub fn generate(tier: &str, seed: u64) -> Vec<String> {
         out.push(cfg.cfg_line("c15", "memory", true, false, &format!(" prot={}{}", prot, extra)));
         // fill the whole array with non-fill data, then a few more writes
         let total: u64 = cfg.shape.iter().product();
-        let xs: Vec<Vec<u8>> = (0..total).map(|_| { let mut e = gen_elem(&mut rng, &cfg); if e == cfg.fill.1 { if let Some(b) = e.first_mut() { *b ^= 0x55 } } e }).collect();
+        let xs: Vec<Vec<u8>> = (0..total).map(|_| { let mut e = gen_elem(&mut rng, &cfg); if e == cfg.fill.1 { if let Some(b) = e.first_mut() { if cfg.dtype.name == "bool" { *b ^= 1 } else { *b ^= 0x55 } } } e }).collect();
         out.push(format!("c15 op store_array_subset r={}+{} data={}", nl(&vec![0; cfg.shape.len()]), nl(&cfg.shape), show_elems(&xs)));
         for _ in 0..rng.below(3) { out.push(format!("c15 {}", gen_write_op(&mut rng, &cfg))); }
         let gs = cfg.grid_shape();
@@ -348,9 +351,9 @@ pub fn generate(tier: &str, seed: u64) -> Vec<String> {
             let layout: String = extra.split(' ').filter(|s| s.starts_with("isz=") || s.starts_with("idx=")).map(|s| format!(" {}", s)).collect();
             out.push(format!("c15 op corrupt_all c={} masks=01,80,ff seed={}{}", cs, rng.next() % 1000, layout));
             if fam == 0 { out.push(format!("c15 op novalidate c={} sums=outer", cs)); }
-            if (fam == 2 || fam == 3) && extra.contains("isum=1") {
+            if (fam == 2 || fam == 3) && (extra.contains("isum=1") || extra.contains("icrc=1")) {
                 let f: BTreeMap<&str, &str> = extra.split(' ').filter_map(|kv| kv.split_once('=')).collect();
-                out.push(format!("c15 op novalidate c={} sums=inner nchunks={} idx={} icrc={}", cs, f["nchunks"], f["idx"], f["icrc"]));
+                out.push(format!("c15 op novalidate c={} sums={} nchunks={} idx={} icrc={}", cs, if extra.contains("isum=1") { "inner" } else { "index" }, f["nchunks"], f["idx"], f["icrc"]));
             }
             out.push(format!("c15 op multi c={} n={} seed={}", cs, if thorough { 60 } else { 20 }, rng.next() % 1000));
             out.push(format!("c15 op truncate_all c={}{}", cs, if extra.is_empty() { String::new() } else { extra.split(' ').filter(|s| s.starts_with("isz=")).map(|s| format!(" {}", s)).collect::<String>() }));
